@@ -29,6 +29,8 @@ pub struct SrvCfg {
     pub tz: Option<String>,
     /// extra environment for the server process (e.g. LD_PRELOAD of the clock shim)
     pub extra_env: Vec<(String, String)>,
+    /// listen on the IPv6 loopback instead of 127.0.0.1
+    pub v6: bool,
 }
 
 impl SrvCfg {
@@ -47,11 +49,12 @@ impl SrvCfg {
             pin: None,
             tz: None,
             extra_env: Vec::new(),
+            v6: false,
         }
     }
 
     pub fn pairs(&self) -> Vec<(&'static str, String)> {
-        let mut v = vec![("interface", "127.0.0.1".to_string()), ("port", self.port.to_string()), ("seed", hex(&self.seed))];
+        let mut v = vec![("interface", if self.v6 { "[::1]".to_string() } else { "127.0.0.1".to_string() }), ("port", self.port.to_string()), ("seed", hex(&self.seed))];
         if let Some(x) = self.batch_size {
             v.push(("batch_size", x.to_string()));
         }
@@ -96,12 +99,45 @@ static PORT_CTR: std::sync::atomic::AtomicU32 = std::sync::atomic::AtomicU32::ne
 /// A UDP (and optionally TCP) port that is free right now on 127.0.0.1, taken from a range
 /// private to this shard (below the kernel's ephemeral range), so that two servers started by
 /// different shards can never end up sharing a port through SO_REUSEPORT.
+/// ports of servers listening on the IPv6 loopback (set by spawn_server); every helper that
+/// talks to "the server on port p" picks the address family from here
+static V6_PORTS: std::sync::Mutex<Vec<u16>> = std::sync::Mutex::new(Vec::new());
+
+pub fn register_v6(port: u16) {
+    V6_PORTS.lock().unwrap().push(port);
+}
+
+pub fn is_v6(port: u16) -> bool {
+    V6_PORTS.lock().unwrap().contains(&port)
+}
+
+/// loopback address of the server (or health listener) on `port`
+pub fn srv_addr(port: u16) -> SocketAddr {
+    if is_v6(port) {
+        format!("[::1]:{}", port).parse().unwrap()
+    } else {
+        format!("127.0.0.1:{}", port).parse().unwrap()
+    }
+}
+
+/// local bind address for a socket that will talk to the server on `port`
+pub fn local_any(port: u16) -> &'static str {
+    if is_v6(port) {
+        "[::1]:0"
+    } else {
+        "127.0.0.1:0"
+    }
+}
+
 pub fn free_port(also_tcp: bool) -> u16 {
     let shard = PORT_SHARD.load(std::sync::atomic::Ordering::Relaxed) % 20;
     for _ in 0..1000 {
         let c = PORT_CTR.fetch_add(1, std::sync::atomic::Ordering::Relaxed) % 1000;
         let p = (10_000 + shard * 1000 + c) as u16;
-        if UdpSocket::bind(("127.0.0.1", p)).is_ok() && (!also_tcp || std::net::TcpListener::bind(("127.0.0.1", p)).is_ok()) {
+        if is_v6(p) {
+            continue;
+        }
+        if UdpSocket::bind(("127.0.0.1", p)).is_ok() && UdpSocket::bind(("::1", p)).is_ok() && (!also_tcp || std::net::TcpListener::bind(("127.0.0.1", p)).is_ok()) {
             return p;
         }
     }
@@ -130,6 +166,12 @@ pub fn spawn_server(bins: &Path, cfg: &SrvCfg, dir: &Path, tag: &str, raw_pairs:
         }
         _ => wrapped("RTVERIF_WRAP_SERVER", &bins.join("roughenough-server")),
     };
+    if cfg.v6 {
+        register_v6(cfg.port);
+        if let Some(hp) = cfg.health_check_port {
+            register_v6(hp);
+        }
+    }
     // the server's time zone must not matter to anything it signs or prints for clients
     const ZONES: [&str; 4] = ["UTC", "Asia/Tokyo", "America/New_York", "Europe/Berlin"];
     cmd.env("TZ", cfg.tz.clone().unwrap_or_else(|| ZONES[(cfg.port % 4) as usize].to_string()));
@@ -156,6 +198,9 @@ pub fn spawn_server(bins: &Path, cfg: &SrvCfg, dir: &Path, tag: &str, raw_pairs:
                 // verbatim line(s), for malformed-file scenarios
                 txt.push_str(v);
                 txt.push('\n');
+            } else if v.starts_with('[') {
+                // a bracketed IPv6 address would be a YAML list unless quoted
+                txt.push_str(&format!("{}: \"{}\"\n", k, v));
             } else {
                 txt.push_str(&format!("{}: {}\n", k, v));
             }
@@ -258,13 +303,13 @@ pub fn make_request(rng: &mut Rng, proto: Proto, srv: Option<&[u8]>) -> (Vec<u8>
 
 /// one request from a fresh socket; Ok(verified) / Err(reason)
 pub fn probe(port: u16, pk: &[u8], proto: Proto, rng: &mut Rng, timeout: Duration) -> Result<Verified, String> {
-    let s = UdpSocket::bind("127.0.0.1:0").map_err(|e| e.to_string())?;
+    let s = UdpSocket::bind(local_any(port)).map_err(|e| e.to_string())?;
     probe_on(&s, port, pk, proto, rng, timeout)
 }
 
 pub fn probe_on(s: &UdpSocket, port: u16, pk: &[u8], proto: Proto, rng: &mut Rng, timeout: Duration) -> Result<Verified, String> {
     let (pkt, nonce) = make_request(rng, proto, None);
-    let addr: SocketAddr = format!("127.0.0.1:{}", port).parse().unwrap();
+    let addr: SocketAddr = srv_addr(port);
     s.set_read_timeout(Some(timeout)).unwrap();
     s.send_to(&pkt, addr).map_err(|e| format!("send: {}", e))?;
     let mut buf = vec![0u8; 4096];
